@@ -64,7 +64,7 @@ var Props = map[string]*PropCfg{
 	"C05": {
 		ID: "C05", Level: "exploration", Evolve: true,
 		Rule: "one evaluation = one history of 1-6 records (same or mixed types, optionally read by an older-schema peer) written back-to-back with EncodeBebop and followed by guard bytes, decoded in order from one simulated link under one chunk schedule and reader kind; per history the all-at-once, 1-byte, boundary-straddling and boundary-aligned schedules are always run and two more are drawn; after every DecodeBebop the link position must equal the record boundary; " +
-			"distinct_nontrivial counts distinct (history length, schedule family, reader kind, first record kind, old-reader?) tuples",
+			"distinct_nontrivial counts distinct (history length, schedule family, reader kind, first record kind, old-reader?) tuples Extensions: the sender writes the history through one writer it keeps; a third of the histories are read after the receiver decoded on an empty and on a cut-short stream; another third with a second caller decoding while the first is inside its k-th Read; reader kinds include *io.LimitedReader, *bytes.Reader, *bytes.Buffer.",
 		RandProgs: map[string]int{"quick": 14, "thorough": 60},
 		Runs:      map[string]int{"quick": 30000, "thorough": 300000},
 		MasksPer:  map[string]int{"quick": 2, "thorough": 3},
@@ -73,7 +73,7 @@ var Props = map[string]*PropCfg{
 	"C06": {
 		ID: "C06", Level: "fault_enumeration", Evolve: true,
 		Rule: "per sampled (program, value): EVERY cut point 0<=k<len of the reference encoding (all of them up to 4096 bytes; structural boundaries +-1 and 64 samples beyond) x {UnmarshalBebop on an exact-capacity guard-paged slice, DecodeBebop all-at-once + EOF, DecodeBebop under a drawn chunk schedule and reader kind + EOF/ErrUnexpectedEOF, MakeFromBytes every 7th}; oracle: non-nil error, no panic, allocation and step budgets relative to the full valid length; " +
-			"distinct_nontrivial counts distinct (record shape, element kind the cut landed on, decoder variant) triples Extensions: budgets are relative to the bytes GIVEN (the cut); a third of the values of evolved programs are read by the OLDER schema; one value in 16 carries payloads beyond 64 KiB and one in ~40 a GIANT array of 2^17 scalars (cuts then sampled, about 40 MB of input per value).",
+			"distinct_nontrivial counts distinct (record shape, element kind the cut landed on, decoder variant) triples Extensions: budgets are relative to the bytes GIVEN (the cut); a third of the values of evolved programs are read by the OLDER schema; one value in 16 carries payloads beyond 64 KiB and one in ~40 a GIANT array of 2^17 scalars (cuts then sampled, about 40 MB of input per value). Per cut also: a reused receiver, a short view with the rest of the encoding in spare capacity, a frame cut by a caller's *io.LimitedReader over a longer stream; per second value an honest giant prefix (a count of fixed-size elements set to 2^22..2^24, enclosing lengths adjusted). Allocation floor 1 MiB.",
 		RandProgs: map[string]int{"quick": 14, "thorough": 60},
 		Runs:      map[string]int{"quick": 4000, "thorough": 40000},
 		MasksPer:  map[string]int{"quick": 2, "thorough": 3},
@@ -82,7 +82,7 @@ var Props = map[string]*PropCfg{
 	"C07": {
 		ID: "C07", Level: "exploration",
 		Rule: "one evaluation = one corrupted or unstructured byte string given to UnmarshalBebop / DecodeBebop (drawn chunk schedule, reader kind) / MakeFromBytes; corruptions are structure-aware via the reference offset map (count/length/body-length inflation to 2^16..2^32-1 and +-1, index/discriminator/terminator rewrites, bit flips, noise ranges, span delete/duplicate/swap, foreign-record splice, truncate-and-pad) plus random and constant strings; oracle: returns (nil or error), no panic, allocation and step budgets relative to the bytes given; " +
-			"distinct_nontrivial counts distinct (record shape, mutation class, decoder) triples Extensions: length prefixes set to exactly what is left of the input (+-2); scalars set to special bit patterns (NaNs, infinities, -0, all ones); unstructured bytes for the decoders of EVERY record type, also types no value of which can be built (union without members).",
+			"distinct_nontrivial counts distinct (record shape, mutation class, decoder) triples Extensions: length prefixes set to exactly what is left of the input (+-2); scalars set to special bit patterns (NaNs, infinities, -0, all ones); unstructured bytes for the decoders of EVERY record type, also types no value of which can be built (union without members). One corrupted input in three goes into a receiver that was used before; deep values with spines of 24-40 nested records; a mutation that collapses every length prefix.",
 		RandProgs: map[string]int{"quick": 14, "thorough": 60},
 		Runs:      map[string]int{"quick": 6000, "thorough": 80000},
 		MasksPer:  map[string]int{"quick": 2, "thorough": 3},
@@ -91,7 +91,7 @@ var Props = map[string]*PropCfg{
 	"C08": {
 		ID: "C08", Level: "fault_enumeration", Evolve: true,
 		Rule: "per sampled (program, value): the fault-free run gives W Write calls and B bytes; then EVERY Write call k<W is failed (bare and partial/transient, error value from a menu of 13 incl. EAGAIN, wrapped EINTR, net-style timeouts, deadline, io.ErrShortWrite) plus 8 byte offsets, and EVERY read offset k<B (all up to 2048; boundaries +-1 and samples beyond) is failed bare, with partial data under a drawn chunk schedule, and transiently; oracle: an error returned to the code => non-nil result, no panic, budgets; nil from EncodeBebop => bytes == MarshalBebop; " +
-			"distinct_nontrivial counts distinct (record shape, fault kind, error value or element kind) triples among faults that actually fired Extensions: the read-fault menu includes a clean io.EOF before the last byte of the record; payloads beyond 64 KiB in one value of 16 (faulted calls then strided to about 40 MB of encoded bytes per value).",
+			"distinct_nontrivial counts distinct (record shape, fault kind, error value or element kind) triples among faults that actually fired Extensions: the read-fault menu includes a clean io.EOF before the last byte of the record; payloads beyond 64 KiB in one value of 16 (faulted calls then strided to about 40 MB of encoded bytes per value). One value in three also as part of a HISTORY of 2-4 records through one kept writer/reader with the fault anywhere in it; transient read faults also arrive with fewer bytes than asked.",
 		RandProgs: map[string]int{"quick": 14, "thorough": 60},
 		Runs:      map[string]int{"quick": 4000, "thorough": 40000},
 		MasksPer:  map[string]int{"quick": 2, "thorough": 3},
